@@ -15,6 +15,7 @@ mod bombs;
 
 #[global_allocator]
 static GLOBAL: bombs::Counting = bombs::Counting;
+mod robotics;
 mod yamlgen;
 
 pub struct Args {
@@ -50,6 +51,7 @@ fn main() {
         ("total", m) => total::run(m, &a),
         ("bombs", m) => bombs::run(m, &a),
         ("pathmap", m) => pathmap::run(m, &a),
+        ("robotics", m) => robotics::run(m, &a),
         _ => { eprintln!("unknown area/mode"); 2 }
     };
     std::process::exit(code);
